@@ -769,6 +769,7 @@ class Client(ClientLike):
 
             header.recv_time = time.perf_counter()
         except ConnectionError:
+            self._connected = False
             raise ConnectionLost
 
         # Read Data Section
@@ -808,6 +809,7 @@ class Client(ClientLike):
                     self._connected = False
                     raise ConnectionLost
             except ConnectionError:
+                self._connected = False
                 raise ConnectionLost
 
         return Message(header, data)
